@@ -20,14 +20,18 @@ HARNESSES = {
     # stand-alone reproducers of the known findings (not part of the check)
     "c12_repro": {"src": ["harness/c12_repro.cc"], "variant": "prod", "flags": [] if _c12_5_applied() else ["-fpermissive"]},
     "c12_linform": {"src": ["harness/c12_linform.cc"], "variant": "prod", "flags": _FPE_FLAGS},
+    # format-history dimension of linearize(): every sequence of analysed formats in a fresh process
+    "c12_fmthist": {"src": ["harness/c12_fmthist.cc"], "variant": "prod"},
 }
 
 def _runs(tier):
     if tier == "quick":
         return [{"harness": "c12_interval", "args": ["--alphabet", "quick"], "budget": 200},
-                {"harness": "c12_linform", "args": ["--menu", "quick"], "budget": 200}]
+                {"harness": "c12_linform", "args": ["--menu", "quick"], "budget": 200},
+                {"harness": "c12_fmthist", "args": ["--menu", "quick"], "budget": 120}]
     return [{"harness": "c12_interval", "args": ["--alphabet", "thorough"], "budget": 1500},
-            {"harness": "c12_linform", "args": ["--menu", "thorough"], "budget": 1000}]
+            {"harness": "c12_linform", "args": ["--menu", "thorough"], "budget": 1000},
+            {"harness": "c12_fmthist", "args": ["--menu", "thorough"], "budget": 600}]
 
 CHECKS = {
     "C12": {"runs": _runs, "level": "model_checking", "deadline": {"quick": 280, "thorough": 2500},
@@ -36,6 +40,7 @@ CHECKS = {
                 "division by an interval having zero in its interior is only required to enclose (documented I_SINGULARITIES convention: universe)",
                 "wrap_assign is only required to contain the wrapped images of the integer members that lie in the refinement interval",
                 "linearisation: concrete evaluations raising FE_OVERFLOW / FE_DIVBYZERO / FE_INVALID (or producing an infinity or a NaN) are run-time errors of the analysed program outside the soundness statement and are skipped (counted)",
+                "format histories: each sequence of analysed formats runs in its own forked process whose parent never called linearize(), so the library's static caches start untouched",
                 "the FP_Oracle of the harness returns the topological closure of Interval(const char*) for floating point constants (the constant of the analysed program is one of the two neighbouring floating point numbers)",
             ]},
 }
